@@ -993,8 +993,14 @@ func (d *Driver) writeEvidence(eng *Engine, results []*HarnessResult, tracesVali
 		"assumptions": d.assumptions(),
 	}
 	data, _ := json.MarshalIndent(ev, "", " ")
-	os.MkdirAll(filepath.Join(d.verif, "evidence"), 0o755)
-	os.WriteFile(filepath.Join(d.verif, "evidence", d.prop+".json"), data, 0o644)
+	// evidence/<id>.json describes a complete run of the registered check against /repo itself;
+	// partial runs (-harness, -no-native) and runs against a scratch copy are filed elsewhere.
+	dir := filepath.Join(d.verif, "evidence")
+	if d.only != "" || d.noNative || filepath.Clean(d.repo) != "/repo" {
+		dir = filepath.Join(d.verif, "replay", "partial-evidence")
+	}
+	os.MkdirAll(dir, 0o755)
+	os.WriteFile(filepath.Join(dir, d.prop+".json"), data, 0o644)
 }
 
 func z3Version() string {
